@@ -67,4 +67,16 @@ func VerifRunningQuery(qid uint64) *RunningQueryState {
 	return allRunningQueries[qid]
 }
 
+// VerifWaitingQuery: the first entry of waitingQueries with this qid (nil when absent).
+func VerifWaitingQuery(qid uint64) *RunningQueryState {
+	waitingQueriesLock.Lock()
+	defer waitingQueriesLock.Unlock()
+	for _, w := range waitingQueries {
+		if w.qid == qid {
+			return w.rQuery
+		}
+	}
+	return nil
+}
+
 func VerifStateChanCap() int { return queryStateChanSize }
